@@ -73,9 +73,9 @@ def generate(cluster, mod, rem, variants, check, invs, workers=3, timeout=1500):
 
 
 # ------------------------------------------------------------------ plans
-V_AUTH = ('case', 'default-port', 'empty-port', 'notation', 'fragment')
+V_AUTH = ('case', 'default-port', 'notation', 'fragment')
 V_PATH = ('dot-segment', 'dotdot-segment', 'dot-segment-last', 'dotdot-segment-last', 'fragment', 'escape-lower', 'escape-upper')
-V_ALL = ('case', 'default-port', 'empty-port', 'notation', 'dot-segment', 'dotdot-segment', 'dot-segment-last', 'dotdot-segment-last', 'fragment', 'escape-lower', 'escape-upper')
+V_ALL = ('case', 'default-port', 'notation', 'dot-segment', 'dotdot-segment', 'dot-segment-last', 'dotdot-segment-last', 'fragment', 'escape-lower', 'escape-upper')
 
 
 def plan(pid, tier, seed):
